@@ -34,6 +34,8 @@ DEN = z3.Function("den", opaque_sort("Obj"), opaque_sort("Entry"), z3.BoolSort()
 
 
 def register(reg):
+    from contracts import c18b_contracts
+    c18b_contracts.register_p2(reg, PID)
     reg.add_spec(SpecFn("den", DEN, ["obj", "opaque"], "bool", native=None))
     reg.add_class(ClassDecl("MatchResult", fields={"result": "Bool", "fields": "Opaque:Fields"}, truth="self.result"))
     reg.add_class(ClassDecl("BaseFilterNode", fields={}))
